@@ -16,6 +16,7 @@ ZeroOnly == {0}
 NoExtras == {}
 ScaleOnly == {"scale"}
 AllExtras == {"scale", "saveload"}
+InsertOnly == {"insert"}
 OneThick == {8}
 Media2 == {"air", "n15"}
 StdOnly == {"std"}
